@@ -436,8 +436,9 @@ def _hyp():
     text = st.text(alphabet=st.characters(blacklist_categories=("Cs",)), max_size=60)
     uri = st.one_of(st.sampled_from(["http://example.com/a?b=c#d", "mailto:jane_doe@example.com", "MAILTO:x@y", "urn:uuid:1-2", "CID:part3", "ftp://h/p;type=a"]),
                     st.text(alphabet=st.characters(min_codepoint=0x21, max_codepoint=0x7e), min_size=1, max_size=40))
-    wd = st.builds(lambda s, n, d, c: {"t": "weekday", "v": (s + str(n) if n else "") + (d.lower() if c else d)},
-                   st.sampled_from(["", "+", "-"]), st.integers(0, 53), st.sampled_from(["SU", "MO", "TU", "WE", "TH", "FR", "SA"]), st.booleans())
+    # ordwk = 1*2DIGIT: ordinals may be written with a leading zero (01MO, -05FR)
+    wd = st.builds(lambda s, n, d, c, pad: {"t": "weekday", "v": (s + (f"{n:02}" if pad else str(n)) if n else "") + (d.lower() if c else d)},
+                   st.sampled_from(["", "+", "-"]), st.integers(0, 53), st.sampled_from(["SU", "MO", "TU", "WE", "TH", "FR", "SA"]), st.booleans(), st.booleans())
     fr = st.builds(lambda f, c: {"t": "freq", "v": [f, f.lower(), f.title()][c]},
                    st.sampled_from(["SECONDLY", "MINUTELY", "HOURLY", "DAILY", "WEEKLY", "MONTHLY", "YEARLY"]), st.integers(0, 2))
     mo = st.builds(lambda m, k: {"t": "month", "v": [m, str(m), f"{m}L"][k]}, st.integers(1, 13), st.integers(0, 2))
